@@ -244,6 +244,25 @@ def r3(ctx: Context, sites) -> None:
                 elif not ob:
                     detail = "no ORDER BY: delivery order unspecified"
                 ctx.add("R3", f"{ret.qualname}::oldest-first", ok, s.where, "" if ok else detail)
+                # every writer of the queue table stamps the ordering column from the same source
+                if ob and tbl:
+                    col = ob[0][0].split(".")[-1]
+                    stamps = {}
+                    for x in sites:
+                        if x.func.cls is c and x.verb.startswith(("INSERT", "REPLACE")) and tbl[0] in x.template:
+                            cols = sqlmini.insert_columns(x.template)
+                            if col not in cols:
+                                kind = "table-default"
+                            else:
+                                m_ = re.search(r"VALUES\s*\((.*)\)", x.template, re.I | re.S)
+                                vals = [v.strip() for v in sqlmini._split_top(m_.group(1), ",")] if m_ else []
+                                v = vals[cols.index(col)] if cols.index(col) < len(vals) else "?"
+                                kind = "sql:" + v if v != "?" else "bound-parameter"
+                            stamps[f"{x.func.name}:{x.call.lineno}"] = kind
+                    kinds = set(stamps.values())
+                    okk = len(kinds) == 1 and not any(k == "bound-parameter" for k in kinds)
+                    ctx.add("R3", f"{c.qualname}::all-writers-stamp-ordering-column-alike", okk, s.where,
+                            "" if okk else f"the delivery order is `ORDER BY {col}` but the writers of the queue table fill {col} from different sources {stamps}: messages routed through one path sort before/after messages routed through the other regardless of arrival order")
         else:
             pops = [cc for h in _follow_self_helpers(ret) for cc in calls_in(h.node) if call_name(cc) in ("popleft", "pop") and self_attr(cc.func) is not None]
             pushes = [cc for h in _follow_self_helpers(route) for cc in calls_in(h.node) if call_name(cc) in ("append", "appendleft") and self_attr(cc.func) is not None]
